@@ -345,6 +345,23 @@ func scenLimiterRejection(start int64) *scenario {
 			}
 			// accepted small change, then a change beyond the updatable budget (must be rejected without a trace),
 			// then another small change of the same delegatee (must still be accepted)
+			// transactions that fail for reasons unrelated to staking rules must not leave a trace in the per-block limiter either
+			if other := reservedKey(sc.hr, 2); other != nil {
+				f1 := sc.add(other, rctypes.TRX_STAKING, v.Addr, e18(2+md), nil, "delegation-with-wrong-nonce", func(tx *rctypes.Trx) { tx.Nonce += 5 })
+				f1.Intend = false
+				f2 := sc.add(other, rctypes.TRX_STAKING, v.Addr, e18(2+md), nil, "delegation-with-forged-signature", nil)
+				f2.Intend, f2.SigOK = false, false
+				// corrupt the signature on the wire
+				t2 := &rctypes.Trx{}
+				if t2.Decode(f2.Raw) == nil && len(t2.Sig) == 65 {
+					t2.Sig[9] ^= 0x20
+					if bz, xerr := t2.Encode(); xerr == nil {
+						f2.Raw = bz
+						f2.Hash = hx(sha256sum(bz))
+						sc.b.Txs[len(sc.b.Txs)-1] = bz
+					}
+				}
+			}
 			sc.add(d, rctypes.TRX_UNSTAKING, v.Addr, new(big.Int), &rctypes.TrxPayloadUnstaking{TxHash: addrBytes(deleg[0].TxHash)}, "small-unstake-1", nil)
 			ti := sc.add(v, rctypes.TRX_UNSTAKING, v.Addr, new(big.Int), &rctypes.TrxPayloadUnstaking{TxHash: addrBytes(own[0].TxHash)}, "unstake-beyond-updatable-limit", nil)
 			ti.Intend = false
@@ -354,6 +371,54 @@ func scenLimiterRejection(start int64) *scenario {
 				sc.add(d, rctypes.TRX_STAKING, v.Addr, e18(2+md), nil, "small-delegation-after-rejection", nil)
 			}
 			sc.hr.C.Count("scenario.limiter-rejection", 1)
+		}
+	}
+	return s
+}
+
+// a single-field governance change (proposed, voted by everybody, applied) in the middle of a history
+func scenParamChange(start int64, field string) *scenario {
+	s := &scenario{name: "param-change:" + field, start: start, state: map[string]interface{}{}}
+	s.step = func(sc *scenCtx, rel int64) {
+		g := sc.hr.G
+		switch rel {
+		case 0:
+			var prop *Key
+			for _, v := range sc.hr.M.lastValidators(sc.h) {
+				if k := g.Keys[v.Addr]; k != nil {
+					prop = k
+					break
+				}
+			}
+			if prop == nil {
+				return
+			}
+			P := sc.pre.Params
+			var val string
+			switch field {
+			case "rewardPerPower":
+				cur := bigDec(P.RewardPerPower)
+				val = new(big.Int).Add(new(big.Int).Mul(cur, big.NewInt(3)), big.NewInt(7)).String()
+			case "lazyRewardBlocks":
+				val = fmt.Sprint(P.LazyRewardBlocks + 3)
+			default:
+				val = "7"
+			}
+			startH := sc.h + 1
+			ti := sc.add(prop, rctypes.TRX_PROPOSAL, zeroAddr, new(big.Int), &rctypes.TrxPayloadProposal{Message: "change " + field, StartVotingHeight: startH,
+				VotingPeriodBlocks: P.MinVotingPeriodBlocks, ApplyingHeight: startH + P.MinVotingPeriodBlocks + P.LazyApplyingBlocks + 1, OptType: optGovParams,
+				Options: [][]byte{[]byte(fmt.Sprintf(`{"%s":"%s"}`, field, val))}}, "param-proposal", nil)
+			s.state["hash"] = ti.Hash
+		case 1:
+			hsh, _ := s.state["hash"].(string)
+			if p := sc.pre.Proposals[hsh]; p != nil {
+				for _, vk := range sortedKeys(p.Voters) {
+					if k := g.Keys[vk]; k != nil {
+						sc.add(k, rctypes.TRX_VOTING, zeroAddr, new(big.Int), &rctypes.TrxPayloadVoting{TxHash: addrBytes(hsh), Choice: 0}, "param-vote", nil)
+					}
+				}
+				sc.hr.C.Count("scenario.param-change."+field, 1)
+			}
 		}
 	}
 	return s
